@@ -38,18 +38,18 @@ theorem untrusted_serve_eq (N : Net Addr Prefix) (cfg : Cfg Prefix) (c : Conn) (
   unfold handlerTrusts peerAddr at hh
   cases hr : remoteHost c with
   | none =>
-    simp [fwdOf, hGet_hDel, kXFF_ne_kXFP, kXFF_ne_kXFH, kXFP_ne_kXFH]
+    simp [fwdOf, hGet_hDel, kXFF_ne_kXFP, kXFF_ne_kXFH, kXFP_ne_kXFH, strOr]
   | some host =>
     simp only [hr] at hh ⊢
     cases hp : N.parseAddr host with
-    | none => simp
+    | none => simp [strOr]
     | some ip =>
       simp only [hp] at hh ⊢
       simp only [hh, Bool.or_self, Option.map_some, fwdOf_setForwarded,
         hGet_prepared cfg w kXFF cfg.omitXFF hop_not_kXFF (hGet_applyOmit_xff cfg _),
         hGet_prepared cfg w kXFP cfg.omitXFP hop_not_kXFP (hGet_applyOmit_xfp cfg _),
         hGet_prepared cfg w kXFH cfg.omitXFH hop_not_kXFH (hGet_applyOmit_xfh cfg _),
-        specField_untrusted]
+        specField_untrusted, strOr]
 
 /-- **non-interference.** (The usual case: no field was pre-set to nil.)  Whatever an untrusted
     peer puts into its request headers — forwarding headers, `Connection`, anything, in any number
